@@ -25,3 +25,35 @@ macro_rules! sim_eprintln {
     () => { $crate::shim::child::eprint_line(format_args!("")) };
     ($($arg:tt)*) => { $crate::shim::child::eprint_line(format_args!($($arg)*)) };
 }
+
+/// Start an OS thread for the harness, retrying when the system is
+/// momentarily out of resources (EAGAIN from pthread_create on a busy
+/// machine): that is the harness's problem, never the code's under test.
+pub fn spawn_os_thread<F, T>(name: String, stack: usize, f: F) -> std::thread::JoinHandle<T>
+where
+    F: FnOnce() -> T + Send + 'static,
+    T: Send + 'static,
+{
+    let slot = std::sync::Arc::new(std::sync::Mutex::new(Some(f)));
+    let mut tries = 0u32;
+    loop {
+        let s2 = slot.clone();
+        let r = std::thread::Builder::new()
+            .name(name.clone())
+            .stack_size(stack)
+            .spawn(move || {
+                let f = s2.lock().unwrap_or_else(|e| e.into_inner()).take().expect("thread body");
+                f()
+            });
+        match r {
+            Ok(h) => return h,
+            Err(e) => {
+                tries += 1;
+                if tries > 200 {
+                    panic!("cannot start a harness thread: {}", e);
+                }
+                std::thread::sleep(std::time::Duration::from_millis(25));
+            }
+        }
+    }
+}
